@@ -22,6 +22,9 @@ pub enum BandState {
     /// else) or a killed removal of a version (everything but the head still there) leaves.
     /// It is not an existing version.
     Headless { hunks: Vec<Vec<usize>>, tail: bool },
+    /// A band whose BANDHEAD is an empty file (a backup killed while writing it): it exists
+    /// but cannot be opened.
+    TornHead { hunks: Vec<Vec<usize>>, tail: bool },
 }
 
 /// All states of one band over `p` paths (indices into a sorted path list).
@@ -65,6 +68,7 @@ fn write_archive(root: &Path, paths: &[String], bands: &[BandState]) {
             BandState::Absent => continue,
             BandState::Present { hunks, complete } => (hunks, *complete, false),
             BandState::Headless { hunks, tail } => (hunks, *tail, true),
+            BandState::TornHead { hunks, tail } => (hunks, *tail, false),
         };
         {
             let hv: Vec<Vec<Value>> = hunks
@@ -76,6 +80,9 @@ fn write_archive(root: &Path, paths: &[String], bands: &[BandState]) {
                 })
                 .collect();
             fmt06::write_band(root, id as u32, &hv, complete);
+            if matches!(b, BandState::TornHead { .. }) {
+                std::fs::write(root.join(fmt06::band_dirname(id as u32)).join("BANDHEAD"), b"").unwrap();
+            }
             if headless {
                 std::fs::remove_file(root.join(fmt06::band_dirname(id as u32)).join("BANDHEAD")).unwrap();
             }
@@ -90,6 +97,8 @@ fn describe(bands: &[BandState], paths: &[String]) -> Value {
         .map(|(i, b)| match b {
             BandState::Absent => json!({"band": i, "state": "absent"}),
             BandState::Present { hunks, complete } => json!({"band": i, "complete": complete,
+                "hunks": hunks.iter().map(|h| h.iter().map(|p| paths[*p].clone()).collect::<Vec<_>>()).collect::<Vec<_>>()}),
+            BandState::TornHead { hunks, tail } => json!({"band": i, "state": "empty BANDHEAD file", "tail": tail,
                 "hunks": hunks.iter().map(|h| h.iter().map(|p| paths[*p].clone()).collect::<Vec<_>>()).collect::<Vec<_>>()}),
             BandState::Headless { hunks, tail } => json!({"band": i, "state": "directory without BANDHEAD", "tail": tail,
                 "hunks": hunks.iter().map(|h| h.iter().map(|p| paths[*p].clone()).collect::<Vec<_>>()).collect::<Vec<_>>()}),
@@ -211,12 +220,14 @@ pub fn band_states_with_empty_hunk(p: usize) -> Vec<BandState> {
     v
 }
 
-/// band_states plus the two head-less directory states.
+/// band_states plus the head-less directory states and the empty-BANDHEAD states.
 pub fn band_states_with_headless(p: usize) -> Vec<BandState> {
     let mut v = band_states(p);
     v.push(BandState::Headless { hunks: vec![], tail: false });
     v.push(BandState::Headless { hunks: vec![(0..p).collect()], tail: true });
     v.push(BandState::Headless { hunks: vec![(0..p).collect()], tail: false });
+    v.push(BandState::TornHead { hunks: vec![], tail: false });
+    v.push(BandState::TornHead { hunks: vec![(0..p).collect()], tail: false });
     v
 }
 
@@ -329,7 +340,7 @@ fn random_case(run: &Run, case: u64) {
             .iter()
             .enumerate()
             .filter_map(|(i, b)| match b {
-                BandState::Present { hunks, .. } | BandState::Headless { hunks, .. } if !hunks.is_empty() => Some((i, hunks.len())),
+                BandState::Present { hunks, .. } | BandState::Headless { hunks, .. } | BandState::TornHead { hunks, .. } if !hunks.is_empty() => Some((i, hunks.len())),
                 _ => None,
             })
             .collect();
